@@ -14,6 +14,7 @@ import Driver.Validate
 import Driver.Cache
 import Driver.Apply
 import Driver.Purity
+import Driver.Schema
 open Lean
 
 def dispatch (j : Json) : Except String Json := do
@@ -28,6 +29,7 @@ def dispatch (j : Json) : Except String Json := do
   | "cache" => Driver.Cache.handle j
   | "apply" => Driver.Apply.handle j
   | "purity" => Driver.Purity.handle j
+  | "schema" => Driver.Schema.handle j
   | _ => throw s!"unknown stream {stream}"
 
 partial def loop (hin hout : IO.FS.Stream) : IO Unit := do
